@@ -510,9 +510,10 @@ def r24_guard0_equivalence(ctx):
     body = [unparse(s) for s in ifs[0].body]
     other = [unparse(s) for s in ifs[0].orelse]
     want = {'cls.quasi_exact = False', 'cls.exact = False', 'cls.epsilon = cls(0)', 'cls.epsilon._value = 1'}
-    ctx.check(set(body) == want, R, ifs[0], init, 'with guard == 0 Guarded carries the flags of Fixed (inexact, epsilon = 1 unit)',
+    contra = {'cls.exact = True', 'cls.quasi_exact = True'}
+    ctx.check(want <= set(body) and not (contra & set(body)), R, ifs[0], init, 'with guard == 0 Guarded carries the flags of Fixed (inexact, epsilon = 1 unit)',
               '; '.join(body), 'guard-0 branch of initialize is %s' % body)
-    ctx.check(set(other) == {'cls.quasi_exact = True', 'cls.exact = True'}, R, ifs[0], init,
+    ctx.check({'cls.quasi_exact = True', 'cls.exact = True'} <= set(other) and not ({'cls.exact = False', 'cls.quasi_exact = False'} & set(other)), R, ifs[0], init,
               'with guard digits Guarded declares itself (quasi-)exact', '; '.join(other), 'guard>0 branch of initialize is %s' % other)
     fxc = ctx.repo.cls(FIXED)
     okf = isinstance(fxc.class_attrs.get('exact'), ast.Constant) and fxc.class_attrs['exact'].value is False \
@@ -545,6 +546,47 @@ def _nonneg(f, name, at_line):
         if isinstance(v, ast.BinOp) and isinstance(v.op, (ast.Mod, ast.FloorDiv)) and isinstance(v.left, ast.Name):
             return _nonneg(f, v.left.id, last.lineno)
     return False
+
+
+def _round_then_floor(cls, f):
+    """find `v += cls.A` ... `v //= cls.B` (in this order) or `(v + cls.A) // cls.B` in __str__; returns
+    (mangled A, mangled B, anchor node) or None"""
+    def attr_of(e):
+        if isinstance(e, ast.Attribute) and isinstance(e.value, ast.Name) and e.value.id in ('self', 'cls', cls.name):
+            return cls.mangle(e.attr)
+        return None
+    for n in f.own_nodes():
+        if isinstance(n, ast.BinOp) and isinstance(n.op, ast.FloorDiv) and isinstance(n.left, ast.BinOp) and isinstance(n.left.op, ast.Add):
+            a = attr_of(n.left.right) or attr_of(n.left.left)
+            b = attr_of(n.right)
+            if a and b:
+                return a, b, n
+    augs = sorted([n for n in f.own_nodes() if isinstance(n, ast.AugAssign) and isinstance(n.target, ast.Name)], key=lambda x: x.lineno)
+    for i, n in enumerate(augs):
+        if isinstance(n.op, ast.Add) and attr_of(n.value):
+            for m in augs[i + 1:]:
+                if m.target.id == n.target.id and isinstance(m.op, ast.FloorDiv) and attr_of(m.value):
+                    return attr_of(n.value), attr_of(m.value), n
+    return None
+
+
+def _linear_ok(e, want):
+    """is e a +/- combination of cls.<attr> with exactly the coefficients `want`?"""
+    coef = {}
+
+    def walk(x, sign):
+        if isinstance(x, ast.BinOp) and isinstance(x.op, ast.Add):
+            walk(x.left, sign)
+            walk(x.right, sign)
+        elif isinstance(x, ast.BinOp) and isinstance(x.op, ast.Sub):
+            walk(x.left, sign)
+            walk(x.right, -sign)
+        elif isinstance(x, ast.Attribute):
+            coef[x.attr] = coef.get(x.attr, 0) + sign
+        else:
+            coef['?'] = 1
+    walk(e, 1)
+    return coef == want
 
 
 def r25_printing(ctx):
@@ -585,50 +627,73 @@ def r25_printing(ctx):
             okp = all(unparse(r.value) in ('str(v)',) for r in plain)
             ctx.check(bool(signs) and bool(signed) and okp, R, f.node, f, 'a negative value is printed with a minus sign in front of its magnitude',
                       "sign = '-' if v < 0 else ''; return sign + <formatted magnitude>", 'the sign is not prefixed to the formatted magnitude')
-    # (b) half-up: rounding constant is half the display unit and is added before the floor division
-    fx = repo.cls(FIXED)
-    txt = {unparse(n.targets[0]): unparse(n.value) for n in fx.methods['initialize'].own_nodes() if isinstance(n, ast.Assign)}
-    ok = txt.get('cls.__scaledd') == '10 ** (cls.precision - cls.display)' and txt.get('cls.__scaledr') == 'cls.__scaledd // 2' \
-        and txt.get('cls.__scaled') == '10 ** cls.display'
-    ctx.check(ok, R, fx.methods['initialize'].node, fx.methods['initialize'], 'Fixed: display rounding constant is half the dropped unit',
-              '__scaledd = 10**(precision-display); __scaledr = __scaledd // 2; __scaled = 10**display', 'Fixed display scale constants changed: %s'
-              % {k: v for k, v in txt.items() if 'scaled' in k})
-    s = fx.methods['__str__']
-    body = [unparse(x) for x in s.own_nodes() if isinstance(x, ast.AugAssign)]
-    ok = body == ['v += self.__scaledr', 'v //= self.__scaledd'] or sorted(body) == sorted(['v += self.__scaledr', 'v //= self.__scaledd'])
-    order = [x.lineno for x in s.own_nodes() if isinstance(x, ast.AugAssign)]
-    adds = [x for x in s.own_nodes() if isinstance(x, ast.AugAssign) and isinstance(x.op, ast.Add)]
-    divs = [x for x in s.own_nodes() if isinstance(x, ast.AugAssign) and isinstance(x.op, ast.FloorDiv)]
-    ok = ok and adds and divs and adds[0].lineno < divs[0].lineno
-    ctx.check(ok, R, s.node, s, 'Fixed.__str__ rounds half-up: adds half the dropped unit, then floors',
-              'v += self.__scaledr; v //= self.__scaledd (in this order)', 'Fixed.__str__ rounding steps are %s' % body)
+    # (b) half-up: the constant added before the floor division is defined by initialize() as half the divisor
+    for qn in (FIXED, GUARDED):
+        cls = repo.cls(qn)
+        s_ = cls.methods['__str__']
+        init = cls.methods['initialize']
+        defs = {}
+        for n in init.own_nodes():
+            if isinstance(n, ast.Assign) and len(n.targets) == 1 and isinstance(n.targets[0], ast.Attribute) \
+                    and isinstance(n.targets[0].value, ast.Name) and n.targets[0].value.id == 'cls':
+                defs.setdefault(cls.mangle(n.targets[0].attr), []).append(n.value)
+        pair = _round_then_floor(cls, s_)
+        what = '%s.__str__ rounds half-up: adds half the dropped unit, then floors' % cls.name
+        if pair is None:
+            ctx.bad(R, s_.node, s_, what, 'no `v + <const>` followed by `// <divisor>` (in this order) found in __str__: the printed value is truncated, not rounded')
+            continue
+        ra, da, anchor = pair
+        rdef, ddef = defs.get(ra, []), defs.get(da, [])
+        ok = len(rdef) == 1 and isinstance(rdef[0], ast.BinOp) and isinstance(rdef[0].op, ast.FloorDiv) \
+            and isinstance(rdef[0].left, ast.Attribute) and cls.mangle(rdef[0].left.attr) == da \
+            and isinstance(rdef[0].right, ast.Constant) and rdef[0].right.value == 2
+        okd = len(ddef) == 1 and isinstance(ddef[0], ast.BinOp) and isinstance(ddef[0].op, ast.Pow) \
+            and isinstance(ddef[0].left, ast.Constant) and ddef[0].left.value == 10
+        want_exp = '(cls.guard + cls.precision - cls.display)' if qn == GUARDED else '(cls.precision - cls.display)'
+        if okd:
+            e = ddef[0].right
+            names = sorted(x.attr for x in ast.walk(e) if isinstance(x, ast.Attribute))
+            okd = names == (['display', 'guard', 'precision'] if qn == GUARDED else ['display', 'precision']) \
+                and _linear_ok(e, {'precision': 1, 'guard': 1, 'display': -1} if qn == GUARDED else {'precision': 1, 'display': -1})
+        ctx.check(ok and okd, R, anchor, s_, what,
+                  'adds cls.%s then floor-divides by cls.%s; initialize(): %s = %s // 2, %s = 10 ** (stored digits - display digits)'
+                  % (ra.split('__')[-1], da.split('__')[-1], ra.split('__')[-1], da.split('__')[-1], da.split('__')[-1]),
+                  'the rounding constant is `%s` and the divisor `%s`: not "half the dropped unit" / "10 ** dropped digits"'
+                  % ([unparse(x) for x in rdef], [unparse(x) for x in ddef]))
+        # the integer/fraction split uses 10 ** display
+        sc = [k for k, v in defs.items() if len(v) == 1 and unparse(v[0]) == '10 ** cls.display']
+        used = [x for x in s_.own_nodes() if isinstance(x, ast.Attribute) and cls.mangle(x.attr) in sc]
+        ctx.check(bool(sc) and len(used) >= 2, R, s_.node, s_, '%s.__str__ splits at 10 ** display' % cls.name,
+                  'integer part // and fraction %% use cls.%s = 10 ** cls.display' % (sc[0].split('__')[-1] if sc else '?'),
+                  'the display split does not use 10 ** cls.display', nontrivial=False)
     gd = repo.cls(GUARDED)
-    txt = {unparse(n.targets[0]): unparse(n.value) for n in gd.methods['initialize'].own_nodes() if isinstance(n, ast.Assign)}
-    ok = txt.get('cls.__scaledd') == '10 ** (cls.guard + cls.precision - cls.display)' and txt.get('cls.__scaledr') == 'cls.__scaledd // 2' \
-        and txt.get('cls.__scaled') == '10 ** cls.display' and txt.get('cls.__scaledg') == '10 ** (cls.display - cls.precision)'
-    ctx.check(ok, R, gd.methods['initialize'].node, gd.methods['initialize'], 'Guarded: display rounding constant is half the dropped unit',
-              '__scaledd = 10**(guard+precision-display); __scaledr = __scaledd // 2', 'Guarded display scale constants changed')
-    s = gd.methods['__str__']
-    gv = [n for n in s.own_nodes() if isinstance(n, ast.Assign) and unparse(n.value) == '(v + self.__scaledr) // self.__scaledd']
-    ctx.check(len(gv) == 1, R, s.node, s, 'Guarded.__str__ rounds half-up: adds half the dropped unit, then floors',
-              'gv = (v + self.__scaledr) // self.__scaledd', 'Guarded.__str__ rounding step changed')
     # the underscore format for display > precision
     ok = any('d_%0' in (const_str(x) or '') for n in gd.methods['initialize'].own_nodes() if isinstance(n, ast.Assign)
              for x in ast.walk(n.value))
     ctx.check(ok, R, gd.methods['initialize'].node, gd.methods['initialize'], 'guard digits shown beyond the precision are set off by an underscore',
               '"%d.%0<p>d_%0<g>d" format when display > precision', 'underscore format missing', nontrivial=False)
     rt = repo.cls(RATIONAL)
-    txt = {unparse(n.targets[0]): unparse(n.value) for n in rt.methods['initialize'].own_nodes() if isinstance(n, ast.Assign)}
-    ok = txt.get('cls._dps') == '10 ** cls.dp' and txt.get('cls._dpr') == 'Fraction(1, cls._dps * 2)'
-    ctx.check(ok, R, rt.methods['initialize'].node, rt.methods['initialize'], 'Rational: display rounding constant is half a display unit',
-              '_dps = 10**dp; _dpr = Fraction(1, _dps*2)', 'Rational display constants changed: %s' % txt)
+    txt = {unparse(n.targets[0]): n.value for n in rt.methods['initialize'].own_nodes() if isinstance(n, ast.Assign) and len(n.targets) == 1}
     s = rt.methods['__str__']
-    steps = [unparse(n.value) for n in sorted([x for x in s.own_nodes() if isinstance(x, ast.Assign)], key=lambda x: x.lineno)
-             if isinstance(n.targets[0], ast.Name) and n.targets[0].id == 'v']
-    ok = 'self + Rational._dpr' in steps and 'v.numerator * Rational._dps // v.denominator' in steps \
-        and steps.index('self + Rational._dpr') < steps.index('v.numerator * Rational._dps // v.denominator')
+    # v = self + R ; v = v.numerator * S // v.denominator   (R = Fraction(1, 2*S), S = 10 ** display digits)
+    adds = [n for n in s.own_nodes() if isinstance(n, ast.Assign) and isinstance(n.value, ast.BinOp) and isinstance(n.value.op, ast.Add)
+            and isinstance(n.value.left, ast.Name) and n.value.left.id == 'self' and isinstance(n.value.right, ast.Attribute)]
+    floors = [n for n in s.own_nodes() if isinstance(n, ast.Assign) and isinstance(n.value, ast.BinOp) and isinstance(n.value.op, ast.FloorDiv)
+              and isinstance(n.value.left, ast.BinOp) and isinstance(n.value.left.op, ast.Mult) and 'numerator' in unparse(n.value.left)
+              and 'denominator' in unparse(n.value.right)]
+    ok = len(adds) == 1 and len(floors) == 1 and adds[0].lineno < floors[0].lineno
+    if ok:
+        R_attr = adds[0].value.right.attr
+        S_attr = [x.attr for x in ast.walk(floors[0].value.left) if isinstance(x, ast.Attribute) and x.attr not in ('numerator', 'denominator')]
+        rdef = txt.get('cls.' + R_attr)
+        sdef = txt.get('cls.' + S_attr[0]) if S_attr else None
+        ok = rdef is not None and sdef is not None and isinstance(rdef, ast.Call) and unparse(rdef.func) == 'Fraction' and len(rdef.args) == 2 \
+            and isinstance(rdef.args[0], ast.Constant) and rdef.args[0].value == 1 \
+            and unparse(rdef.args[1]).replace(' ', '') in ('cls.%s*2' % S_attr[0], '2*cls.%s' % S_attr[0]) \
+            and isinstance(sdef, ast.BinOp) and isinstance(sdef.op, ast.Pow) and isinstance(sdef.left, ast.Constant) and sdef.left.value == 10
     ctx.check(ok, R, s.node, s, 'Rational.__str__ rounds half-up: adds half a display unit, then floors',
-              'v = self + _dpr; v = v.numerator * _dps // v.denominator', 'Rational.__str__ rounding steps are %s' % steps)
+              'v = self + cls.<r>; v = v.numerator * cls.<s> // v.denominator with <r> = Fraction(1, 2 * <s>), <s> = 10 ** display digits',
+              'Rational.__str__ does not add Fraction(1, 2 * 10**display) before flooring at 10**display')
     # (d) no lossy rendering of values in the record / hooks
     n_r = 0
     targets = [repo.func('droop.record.ElectionRecord.report'), repo.func('droop.record.ElectionRecord.dump'),
